@@ -485,3 +485,336 @@ def build():
     C.assume("A-FLOAT: times as reals")
     C.assume("switch objects have state/invert in {0,1} (set by the switch device and platform)")
     return C
+
+
+def timed_add_set(pid="C03t"):
+    """SwitchController._add_timed_switch_handler: the hold-time bookkeeping when a handler's deadline is recorded.
+    Whatever deadlines are already pending, afterwards ONE wake-up is armed, for the earliest pending deadline, and
+    nothing runs synchronously (no handler call, no event-queue drain: the function is reached from inside event
+    handlers)."""
+    C = ContractSet(pid, "hold-time deadlines: one wake-up at the earliest deadline, nothing synchronous")
+    C.strings = False
+    NT2 = common.bound(2, 3)
+    C.cls("MpfController", fields={})
+    C.cls("Loop", fields={})
+
+    def call_at(I, env, a, k):
+        h = VOpaque("TimerHandle", z3.Const(I.fresh_name("timer"), usort("TimerHandle")))
+        emit(I, "call_at", when=a[0], callback=a[1], handle=h)
+        return h
+    C.ext("Loop.call_at", model=call_at, trusted_reason="asyncio loop.call_at (A-ASYNCIO): fires once, not before its time")
+    C.cls("ClockBase", fields=dict(now=Real, loop=ObjS("Loop")))
+    C.ext("ClockBase.get_time", model=lambda I, env, a, k: I.read_field(env["self"].ref, "now"), trusted_reason="loop clock")
+    C.ext("ClockBase.unschedule", model=lambda I, env, a, k: (emit(I, "unschedule", handle=a[0]), NONE)[1],
+          trusted_reason="cancels a timer handle")
+    C.globals["partial"] = VFn("builtin", name="partial")
+    C.cls("SwitchI", fields={})
+    SW = ObjS("SwitchI")
+    HANDLER = TupleS(Fn, Int, Real, ntname="TimedSwitchHandler", fields=("callback", "state", "ms"))
+
+    def pending(I, name):
+        """deadlines already pending for the switch (0..NT2, distinct, in any order) - with the wake-up that the
+        bookkeeping invariant demands: armed iff something is pending, for the earliest deadline"""
+        sw = I.force(I.frames[0].env["switch"]).ref
+        n = I.ctx.fork(NT2 + 1)
+        ents = []
+        for j in range(n):
+            t = VReal(z3.Real("%s.deadline%d" % (name, j)))
+            ents.append((t, I.new_list([I.fresh(HANDLER, "%s.h%d" % (name, j))], "%s[t%d]" % (name, j))))
+        for i_ in range(n):
+            I.ctx.assume(ents[i_][0].t > 0)
+            for j_ in range(i_ + 1, n):
+                I.ctx.assume(ents[i_][0].t != ents[j_][0].t)
+        I.__dict__["c03_pending"] = ents
+        if not ents:
+            return I.new_dict([], name)
+        return I.new_dict([(VObj(sw), I.new_dict(ents, name + "[sw]"))], name)
+
+    def wakeup(I, name):
+        this = I.frames[0].env["self"].ref
+        I.force(I.read_field(this, "_active_timed_switches"))
+        ents = I.__dict__["c03_pending"]
+        sw = I.force(I.frames[0].env["switch"]).ref
+        if not ents:
+            return I.new_dict([], name)
+        when = z3.Real("old_wakeup_time")
+        I.ctx.assume(z3.And([when <= t.t for t, _ in ents] + [z3.Or([when == t.t for t, _ in ents])]))
+        h = VOpaque("TimerHandle", z3.Const("old_timer", usort("TimerHandle")))
+        I.__dict__["c03_old_handle"] = h
+        return I.new_dict([(VObj(sw), VTuple([h, VReal(when)]))], name)
+    C.cls("SwitchController", file="mpf/core/switch_controller.py", bases=["MpfController"], check_bases=False,
+          fields=dict(_active_timed_switches=Init(pending), _timed_switch_handler_delay=Init(wakeup),
+                      machine=ObjS("MachineController", clock=ObjS("ClockBase"))))
+
+    def proc(I, env, a, k):
+        emit(I, "process_now", switch=a[0])
+        return NONE
+    C.ext("SwitchController._process_active_timed_switches", model=proc,
+          trusted_reason="Part C (verified in the main set): calls the due handlers and DRAINS the event queue - it must "
+                         "only ever run from the loop, never synchronously from here")
+
+    def recorded(I, switch, time, handler):
+        """the handler is the last entry under its deadline; every other pending entry is unchanged"""
+        this = I.frames[0].env["self"].ref
+        sw = I.force(switch).ref
+        outer = I.container(I.force(I.read_field(this, "_active_timed_switches")).ref)
+        inner_v = outer.get(VObj(sw))
+        if inner_v is None:
+            return VBool(False)
+        inner = I.container(I.force(inner_v).ref).entries
+        old = I.__dict__.get("c03_pending", [])
+        tt = I.force(time).t
+        hv = I.force(handler)
+        cases = []
+        # case: time equals old deadline j -> appended there; else new key
+        for j, (t, lst) in enumerate(old):
+            ok = len(inner) == len(old)
+            if ok:
+                conj = [tt == t.t]
+                for (t2, lst2), (t0, lst0) in zip(inner, old):
+                    items2 = I.container(I.force(lst2).ref).items
+                    items0 = I.container(I.force(lst0).ref, heap=I.old_heap).items
+                    if t0 is t:
+                        ok = ok and len(items2) == len(items0) + 1
+                        if ok:
+                            conj.append(I.eq(items2[-1], hv))
+                    else:
+                        ok = ok and len(items2) == len(items0)
+                cases.append(z3.And(conj) if ok else z3.BoolVal(False))
+        new_ok = len(inner) == len(old) + 1
+        if new_ok:
+            conj = [tt != t.t for t, _ in old]
+            found = False
+            for t2, lst2 in inner:
+                items2 = I.container(I.force(lst2).ref).items
+                if not any(t2 is t0 for t0, _ in old):
+                    found = len(items2) == 1
+                    if found:
+                        conj += [I.force(t2).t == tt, I.eq(items2[0], hv)]
+            cases.append(z3.And(conj) if found else z3.BoolVal(False))
+        return VBool(z3.Or(cases + [z3.BoolVal(False)]))
+    C.helpers["deadline_recorded"] = recorded
+
+    def one_wakeup_at_earliest(I, switch, time):
+        """afterwards the remembered wake-up time is the EARLIEST pending deadline (old ones and the new one); if it had
+        to move, the old timer is cancelled and exactly one new timer is set for that time, calling
+        _process_active_timed_switches(switch); otherwise no timer is touched"""
+        this = I.frames[0].env["self"].ref
+        sw = I.force(switch).ref
+        old = I.__dict__.get("c03_pending", [])
+        tt = I.force(time).t
+        dl = I.container(I.force(I.read_field(this, "_timed_switch_handler_delay")).ref).get(VObj(sw))
+        if dl is None:
+            return VBool(False)
+        rem = I.force(dl)
+        earliest_ok = z3.And([rem.items[1].t <= t.t for t, _ in old] + [rem.items[1].t <= tt] +
+                             [z3.Or([rem.items[1].t == t.t for t, _ in old] + [rem.items[1].t == tt])])
+        evs = events_named(I, "call_at")
+        uns = events_named(I, "unschedule")
+        if len(evs) > 1 or len(uns) > 1:
+            return VBool(False)
+        if evs:
+            cb = I.force(evs[0].args["callback"])
+            ok = cb.tag == "fn" and cb.kind == "partial" and I.force(cb.fn).name == "_process_active_timed_switches" \
+                and len(cb.args) == 1 and I.force(cb.args[0]).ref is sw
+            armed = z3.And(z3.BoolVal(bool(ok)), I.eq(evs[0].args["when"], rem.items[1]),
+                           I.eq(rem.items[0], evs[0].args["handle"]))
+            oldh = I.__dict__.get("c03_old_handle")
+            if old:
+                armed = z3.And(armed, z3.BoolVal(len(uns) == 1 and I.force(uns[0].args["handle"]).t.eq(oldh.t)))
+            else:
+                armed = z3.And(armed, z3.BoolVal(len(uns) == 0))
+            return VBool(z3.And(earliest_ok, armed))
+        return VBool(z3.And(earliest_ok, z3.BoolVal(len(uns) == 0)))
+    C.helpers["one_wakeup_at_earliest"] = one_wakeup_at_earliest
+    C.helpers["n_sync"] = lambda I: VInt(len([e for e in I.cur_trace() if e.name in ("process_now", "callback", "drain")]))
+    C.trace_helpers = {"one_wakeup_at_earliest", "n_sync"}
+    C.helpers["on_opaque_call"] = lambda I, fn, a, k: NONE
+    C.fn("SwitchController._add_timed_switch_handler", params=dict(switch=SW, time=Real, timed_switch_handler=HANDLER),
+         requires=[("loop-clock times are positive", "time > 0")],
+         ensures=[("AT1: the handler is recorded under its deadline (after earlier ones for the same deadline); every other "
+                   "pending entry is untouched", "deadline_recorded(switch, time, timed_switch_handler)"),
+                  ("AT2: one wake-up is armed, for the EARLIEST pending deadline - also when a wake-up for a later deadline "
+                   "was already pending (so no hold-time handler fires late)", "one_wakeup_at_earliest(switch, time)"),
+                  ("AT3: nothing runs synchronously: no handler is called and the event queue is not drained here (the "
+                   "function is reached from inside event handlers; due handlers run from the loop)", "n_sync() == 0")],
+         modifies=["self._active_timed_switches", "self._active_timed_switches.**", "self._timed_switch_handler_delay",
+                   "self._timed_switch_handler_delay.**"], raises={}, skip_frame=True,
+         bounded="BOUNDED: 0..%d deadlines already pending (distinct, any order)" % NT2)
+    return C
+
+
+SWDEV = "mpf/devices/switch.py"
+
+
+def switch_events_set():
+    """Switch device: the switch's configured events are posted once per real change of its LOGICAL state; with an
+    ignore window (ignore_window_ms) the first change posts at once and one catch-up post is made when the window ends
+    iff the logical state then differs from the one the window was opened with"""
+    C = ContractSet("C03e", "switch events follow the logical state")
+    C.strings = False
+    C.cls("SystemWideDevice", fields={})
+    C.cls("DevicePositionMixin", fields={})
+    C.cls("EventManager", fields={})
+
+    def exists(I, env, a, k):
+        r = VBool(z3.Bool(I.fresh_name("event_exists")))
+        emit(I, "exists?", event=a[0], result=r)
+        return r
+    C.ext("EventManager.does_event_exist", model=exists, trusted_reason="EventManager.does_event_exist (C01): handlers "
+                                                                        "registered for the name")
+    C.ext("EventManager.post", model=lambda I, env, a, k: (emit(I, "post", event=a[0]), NONE)[1],
+          trusted_reason="event posting (C01)")
+    C.cls("Loop", fields={})
+    C.ext("Loop.call_at", model=lambda I, env, a, k: (emit(I, "call_at", when=a[0], callback=a[1]), NONE)[1],
+          trusted_reason="asyncio loop.call_at (A-ASYNCIO)")
+    C.globals["partial"] = VFn("builtin", name="partial")
+
+    def events_to_post(I, name):
+        def lst(st):
+            return I.new_list([VStr(z3.String("%s[%d][%d]" % (name, st, i))) for i in range(I.ctx.fork(3))],
+                              "%s[%d]" % (name, st))
+        return I.new_dict(((0, lst(0)), (1, lst(1))), name)
+    C.cls("Switch", file=SWDEV, bases=["SystemWideDevice", "DevicePositionMixin"], fields=dict(
+        state=Int, hw_state=Int, invert=Int, last_change=Real, recycle_secs=Real, recycle_clear_time=Opt(Real),
+        _events_to_post=Init(events_to_post), _debug=Bool,
+        machine=ObjS("MachineController", events=ObjS("EventManager"), clock=ObjS("ClockI", loop=ObjS("Loop")))),
+        invariants=[("states are 0/1", "(self.state == 0 or self.state == 1) and (self.hw_state == 0 or "
+                                       "self.hw_state == 1)")])
+
+    def posted_for(I, state):
+        """exactly the configured events of `state` that have a handler (or all of them with debug) are posted, once
+        each, in order"""
+        this = I.frames[0].env["self"].ref
+        sv = z3.simplify(I.force(state).t)
+        if not z3.is_int_value(sv):
+            return VBool(z3.If(sv == 0, posted_for(I, VInt(0)).t, z3.And(sv == 1, posted_for(I, VInt(1)).t)))
+        evs = I.container(I.force(I.container(I.force(I.read_field(this, "_events_to_post")).ref).get(sv.as_long())).ref).items
+        dbg = I.truth(I.read_field(this, "_debug"))
+        posts = [e for e in I.cur_trace() if e.name == "post"]
+        ex = {str(I.force(e.args["event"]).t): I.force(e.args["result"]).t for e in I.cur_trace() if e.name == "exists?"}
+        want = []
+        conj = []
+        # walk the configured events; each is posted iff debug or it exists (decision recorded in the trace)
+        pi = 0
+        for ev in evs:
+            name_t = I.force(ev).t
+            dec = ex.get(str(name_t))
+            should = z3.Or(dbg, dec) if dec is not None else dbg
+            is_posted = pi < len(posts) and I.force(posts[pi].args["event"]).t.eq(name_t)
+            if is_posted:
+                conj.append(should)
+                pi += 1
+            else:
+                conj.append(z3.Not(should))
+        if pi != len(posts):
+            return VBool(False)
+        return VBool(z3.And(conj + [z3.BoolVal(True)]))
+    C.helpers["posted_for"] = posted_for
+    C.helpers["n_posts"] = lambda I: VInt(len([e for e in I.cur_trace() if e.name == "post"]))
+    C.helpers["n_timers"] = lambda I: VInt(len([e for e in I.cur_trace() if e.name == "call_at"]))
+
+    def window_timer(I, state):
+        evs = [e for e in I.cur_trace() if e.name == "call_at"]
+        if len(evs) != 1:
+            return VBool(False)
+        this = I.frames[0].env["self"].ref
+        cb = I.force(evs[0].args["callback"])
+        ok = cb.tag == "fn" and cb.kind == "partial" and I.force(cb.fn).name == "_recycle_passed" and len(cb.args) == 1
+        if not ok:
+            return VBool(False)
+        return VBool(z3.And(I.eq(cb.args[0], state), I.eq(evs[0].args["when"], I.read_field(this, "recycle_clear_time"))))
+    C.helpers["window_timer_for"] = window_timer
+    C.trace_helpers = {"posted_for", "n_posts", "n_timers", "window_timer_for"}
+    ST = Union(Const(0), Const(1))
+    C.fn("Switch._post_events", params=dict(state=ST),
+         loops={0: LoopSpec(invariant=[], unroll=True)},
+         ensures=[("SE1: the configured events of that state are posted once each (those somebody listens to)",
+                   "posted_for(state)")], modifies=[], raises={}, inline_calls=True,
+         bounded="BOUNDED: at most 2 events per state")
+    C.fn("Switch._post_events_with_recycle", params=dict(state=ST), requires=[("a window is configured", "self.recycle_secs > 0")],
+         ensures=[("SE2: outside an ignore window a change posts its events at once and opens a window that ends "
+                   "recycle_secs after the change, with ONE timer for its end that remembers the state it was opened with",
+                   "implies(old(self.recycle_clear_time) is None, posted_for(state) and self.recycle_clear_time == "
+                   "self.last_change + self.recycle_secs and window_timer_for(state))"),
+                  ("SE3: inside a window nothing is posted and no further timer is set",
+                   "implies(old(self.recycle_clear_time) is not None and old(self.recycle_clear_time) != 0, "
+                   "n_posts() == 0 and n_timers() == 0 and self.recycle_clear_time == old(self.recycle_clear_time))")],
+         modifies=["self.recycle_clear_time"], raises={}, inline_calls=True,
+         bounded="BOUNDED: at most 2 events per state")
+    C.fn("Switch._recycle_passed", params=dict(state=ST),
+         ensures=[("SE4: when the window ends it is closed, and the events of the CURRENT logical state are posted iff that "
+                   "state differs from the one the window was opened with (normally-open and normally-closed switches "
+                   "alike: the logical state, not the raw hardware state, decides)",
+                   "self.recycle_clear_time is None and (posted_for(self.state) if self.state != state else "
+                   "n_posts() == 0)")],
+         modifies=["self.recycle_clear_time"], raises={}, inline_calls=True,
+         bounded="BOUNDED: at most 2 events per state")
+    return C
+
+
+def bcp_switch_set():
+    """switch changes requested over BCP (media controller, switch monitor): after the request the switch's LOGICAL state
+    is the requested one; -1 flips the current logical state"""
+    C = ContractSet("C03b", "switch changes requested over BCP")
+    C.strings = False
+    C.cls("MpfController", fields={})
+    C.cls("SwitchDev", fields=dict(state=Int, hw_state=Int, invert=Int))
+
+    def switches(I, name):
+        return I.new_dict((("s_known", I.fresh(ObjS("SwitchDev"), name + "[s_known]")),), name)
+    C.cls("SwitchControllerI", fields={})
+    C.ext("SwitchControllerI.is_active", model=lambda I, env, a, k: VBool(I.force(I.read_field(I.force(a[0]).ref,
+                                                                                              "state")).t == 1),
+          trusted_reason="SwitchController.is_active (main set): logical state == 1")
+
+    def pso(I, env, a, k):
+        emit(I, "process_switch_obj", obj=k.get("obj", a[0] if a else NONE), state=k.get("state"), logical=k.get("logical"))
+        return NONE
+    C.ext("SwitchControllerI.process_switch_obj", model=pso,
+          trusted_reason="SwitchController.process_switch_obj (main set): logical state = reported state (raw reports "
+                         "inverted for NC switches)")
+    C.cls("BcpInterface", file="mpf/core/bcp/bcp_interface.py", bases=["MpfController"], fields=dict(
+        machine=ObjS("MachineController", switches=Init(switches), switch_controller=ObjS("SwitchControllerI"))))
+
+    def requested_state_reached(I, name, state):
+        """one report that makes the switch's logical state the requested one (process_switch_obj's contract: a logical
+        report sets the state as given, a raw one is inverted for NC switches)"""
+        evs = events_named(I, "process_switch_obj")
+        nm = I.pyconst(I.force(name))
+        if nm != "s_known":
+            return VBool(len(evs) == 0)
+        if len(evs) != 1:
+            return VBool(False)
+        this = I.frames[0].env["self"].ref
+        sw = I.container(I.force(I.read_field(I.force(I.read_field(this, "machine")).ref, "switches")).ref).get("s_known")
+        swr = I.force(sw).ref
+        e = evs[0]
+        if I.force(e.args["obj"]).ref is not swr:
+            return VBool(False)
+        cur = I.force(I.read_field(swr, "state", heap=I.old_heap)).t
+        inv = I.force(I.read_field(swr, "invert", heap=I.old_heap)).t
+        st = I.force(state).t
+        want = z3.If(st == -1, 1 - cur, st)
+        rep = I.num(e.args["state"])[1]
+        logical = I.truth(e.args["logical"])
+        resulting = z3.If(logical, rep, z3.If(inv == 1, 1 - rep, rep))
+        return VBool(resulting == want)
+    C.helpers["requested_state_reached"] = requested_state_reached
+    C.trace_helpers = {"requested_state_reached"}
+    C.fn("BcpInterface._bcp_receive_switch",
+         params=dict(client=Opaque("Client"), name=Union(Const("s_known"), Const("s_unknown")),
+                     state=Union(Const(-1), Const(0), Const(1)), kwargs=Opaque("Kwargs")),
+         requires=[("switch states are 0/1", "(self.machine.switches['s_known'].state == 0 or "
+                                             "self.machine.switches['s_known'].state == 1) and "
+                                             "(self.machine.switches['s_known'].invert == 0 or "
+                                             "self.machine.switches['s_known'].invert == 1)")],
+         ensures=[("BS1: a BCP switch request sets the LOGICAL state asked for; -1 flips the current logical state "
+                   "(whatever the raw hardware state last reported was); an unknown switch name changes nothing",
+                   "requested_state_reached(name, state)")],
+         modifies=[], raises={})
+    return C
+
+
+def build_extra():
+    return [timed_add_set(), switch_events_set(), bcp_switch_set()]
